@@ -47,6 +47,7 @@ def lib(variant="plain"):
         L.vp_engine_source.restype = c_char_p; L.vp_engine_source.argtypes = [c_void_p]
         L.vp_engine_free.argtypes = [c_void_p]; L.vp_engine_free.restype = None
         L.vp_engine_set_language.restype = None; L.vp_engine_set_language.argtypes = [c_void_p, c_int]
+        L.vp_engine_parse_range.restype = None; L.vp_engine_parse_range.argtypes = [c_void_p, c_ulong, c_ulong]
         L.vp_engine_parse.restype = None; L.vp_engine_parse.argtypes = [c_void_p]
         L.vp_engine_new_d.restype = c_void_p; L.vp_engine_new_d.argtypes = [c_char_p, c_ulong]
         L.vp_engine_set_text.restype = None; L.vp_engine_set_text.argtypes = [c_void_p, c_char_p]
